@@ -135,6 +135,12 @@ def solver_case(rep, rng, dev, kind, screening, ci):
         A = runs.ramp_field_param(1.0, 1.01, 20.0)
     elif kind == "fast_ramp":
         A = runs.ramp_field_param(0.0, 0.5, 1.0)
+    elif kind == "tiny_ramp":
+        # a very weak, very slow ramp: the potential changes by ~1e-15 (dimensionless) per step - still a change
+        A = runs.ramp_field_param(0.0, 1e-10, 50.0)
+    elif kind == "tiny_on_large":
+        # ... and the same tiny drift on top of a large static field (relative change ~1e-13 per step)
+        A = runs.ramp_field_param(5.0, 5.0 * (1 + 2e-10), 50.0)
     elif kind == "steps":
         A = runs.step_field_param([0.0, 0.3, 0.3, 0.0, 0.2], 0.25)
     elif kind == "switch_off":
@@ -213,7 +219,8 @@ def run(rep: common.Report, tier: str, seed: int, replay=None) -> int:
         ndis += cmp_model(rep, out, ops, case)
     # solver level
     dev = meshes.make_device(rng, holes=1, terminals=2, max_edge_length=0.9)
-    plans = [("slow_ramp", False), ("fast_ramp", False), ("steps", False), ("switch_off", False), ("const", False), ("fast_ramp", True)]
+    plans = [("slow_ramp", False), ("fast_ramp", False), ("steps", False), ("switch_off", False), ("const", False), ("fast_ramp", True),
+             ("tiny_ramp", False), ("tiny_on_large", False)]
     if tier == "thorough":
         plans += [("steps", True), ("slow_ramp", True)]
     trig = []
